@@ -35,6 +35,7 @@ def run(ctx):
     k1(ctx, fx, A)
     for (fn, b, node, _) in A.kb_decodes:
         k2(ctx, fx, A, fn, b, node)
+    k3b(ctx, fx, A)
     k4(ctx, fx, A)
 
 
@@ -258,6 +259,35 @@ def hash_input_ok(x):
 
 
 # ---------------------------------------------------------------------------------------------
+def k3b(ctx, fx, A):
+    """the presented sequence (JWT, disclosure list, KB-JWT) is immutable after parsing: in verifier-reachable code these SDJWTCommon
+    fields are written / mutably borrowed only by the parsers (functions reachable from the parse dispatcher)"""
+    import callgraph as cg
+    import c10
+    ps = c10.parsers(fx)
+    pnames = set()
+    for p in ps:
+        pnames |= cg.reachable_from(A.g, [p.name])
+    for f in list(pnames):
+        pass
+    n = 0
+    for field in ("input_disclosures", "unverified_sd_jwt", "unverified_input_key_binding_jwt"):
+        for w in common.struct_field_writes(fx, COMMON, field) or []:
+            f = w["fn"]
+            if f.is_macro_generated() or f.name not in A.reach:
+                continue
+            if w["how"] == "init":
+                v = peel(w["value"]) if w["value"] is not None else None
+                continue
+            n += 1
+            if f.name in pnames:
+                ctx.ok("C04.K3", f, "presented-state-writer:%s" % field, "written by the parser", line=w["line"])
+            else:
+                ctx.finding("C04.K3", f, "presented-state-mutated:%s" % field,
+                            "`%s` (part of the sequence over which sd_hash is recomputed) is %s after parsing: the digest no longer covers exactly what was presented" % (field, "mutably borrowed" if w["how"] == "mutborrow" else "rewritten"), line=w["line"])
+    ctx.floor("C04.K3", "writes of the presented sequence", n, 4)
+
+
 def k4(ctx, fx, A):
     """names read by the verifier from the KB-JWT ⊆ names written by the holder's KB builder; same digest function and roots"""
     read = set()
